@@ -197,6 +197,7 @@ def run_record_validate(run, name, driver, trace_module, prop, site, rounds, sha
     summ = {"property": prop, "behaviours": 0, "events": 0, "compared": 0, "nontrivial": 0, "violations": [], "violation_count": 0,
             "drift_count": 0, "drift_samples": [], "samples": [], "notes": {}}
     states = trans = 0
+    distinct = set()
     for r in results:
         summ["events"] += r["events"]
         summ["compared"] += r["consumed"]
@@ -207,7 +208,21 @@ def run_record_validate(run, name, driver, trace_module, prop, site, rounds, sha
         else:
             rounds_n = sum(1 for l in lines if '"ev":"%s"' % unit in l)
         summ["behaviours"] += rounds_n
-        summ["nontrivial"] += rounds_n
+        # distinct cases, measured: distinct event lines (unit = event) / distinct round contents (otherwise)
+        import hashlib
+        if unit == "event":
+            for l in lines:
+                if l and '"ev":"reset"' not in l and '"ev":"noise"' not in l:
+                    distinct.add(hashlib.md5(l.encode()).digest())
+        else:
+            cur = []
+            for l in lines + ['"ev":"%s"' % unit]:
+                if ('"ev":"%s"' % unit) in l:
+                    if len(cur) > 1:
+                        distinct.add(hashlib.md5("\n".join(cur).encode()).digest())
+                    cur = [l]
+                elif l:
+                    cur.append(l)
         if not summ["samples"] and len(lines) > 3:
             summ["samples"].append({"trace_module": trace_module, "first_events": [json.loads(l) for l in lines[:4] if l]})
         if r["consumed"] < r["total"]:
@@ -226,6 +241,7 @@ def run_record_validate(run, name, driver, trace_module, prop, site, rounds, sha
                                        "replay": rp, "case": {"event": json.loads(lines[k - 1]) if lines[k - 1] else None}})
         else:
             run.traces_validated += rounds_n
+    summ["nontrivial"] = len(distinct)
     tlc = {"name": name, "states": states, "transitions": trans, "ok": True, "error": None, "violated": None,
            "wall_s": round(time.time() - t0, 1)}
     return tlc, summ
@@ -252,13 +268,14 @@ def read_summary(path):
 # a run = one invocation of check <ID>
 
 class Run:
-    def __init__(self, pid, tier, seed):
+    def __init__(self, pid, tier, seed, keep_replays=False):
         self.pid, self.tier, self.seed = pid, tier, seed
         self.dir = os.path.join(WORK, "run-%s-%d" % (pid, os.getpid()))
         shutil.rmtree(self.dir, ignore_errors=True)
         os.makedirs(self.dir)
         self.replay_dir = os.path.join(VERIF, "replays", pid)
-        shutil.rmtree(self.replay_dir, ignore_errors=True)
+        if not keep_replays:
+            shutil.rmtree(self.replay_dir, ignore_errors=True)
         os.makedirs(self.replay_dir, exist_ok=True)
         self.tlc = []          # TLC results
         self.summaries = []    # harness summaries
@@ -413,9 +430,11 @@ def run_check(pid, tier, seed, replay=None):
         return 2
     try:
         prepare()
-        run = Run(pid, tier, seed)
+        run = Run(pid, tier, seed, keep_replays=bool(replay))
         if replay:
-            return props.replay_file(run, replay)
+            rc = props.replay_file(run, os.path.abspath(replay))
+            shutil.rmtree(run.dir, ignore_errors=True)
+            return rc
         props.PROPS[pid](run)
         return finish(run)
     except ToolError as e:
